@@ -624,6 +624,38 @@ pub fn check_c04(ctx: &Ctx, n: &Node) -> Result<(), Fail> {
             }
         }
     }
+    // 8. recording is bundling: an accumulator that was given `e` and one more error - by `push`, by `extend` with a
+    //    vector, by `extend` with an iterator of unknown length - finishes with what `Error::multiple` makes of the
+    //    two: the same leaves in the same order with the same text and the same (own or inherited) spans, and the
+    //    bundle itself carries no span nobody attached
+    {
+        let x = Error::custom("one more");
+        let probe = |b: Error| -> (Option<(usize, usize)>, usize, Vec<(String, Option<(usize, usize)>)>) {
+            (b.explicit_span().map(range), b.len(), b.flatten().into_iter().map(|l| (l.to_string(), l.explicit_span().map(range))).collect())
+        };
+        let want = probe(Error::multiple(vec![e.clone(), x.clone()]));
+        let mut by_push = Error::accumulator();
+        by_push.push(e.clone());
+        by_push.push(x.clone());
+        let mut by_extend = Error::accumulator();
+        by_extend.extend(vec![e.clone(), x.clone()]);
+        let mut by_lazy = Error::accumulator();
+        by_lazy.extend(vec![e.clone(), x.clone()].into_iter().filter(|_| true));
+        let mut by_handle = Error::accumulator();
+        let _: Option<()> = by_handle.handle(Err(e.clone()));
+        let _: Option<()> = by_handle.handle(Err(x.clone()));
+        // (every accumulator is finished before anything is compared: an unfinished one must not be dropped)
+        let finished: Vec<(&str, Result<(), Error>)> = vec![("push", by_push.finish()), ("extend", by_extend.finish()), ("extend(lazy)", by_lazy.finish()), ("handle", by_handle.finish())];
+        for (how, res) in finished {
+            match res {
+                Ok(()) => fail!("c04:recording-is-bundling", "an accumulator given two errors by {} finished Ok", how),
+                Err(b) => {
+                    let got = probe(b);
+                    ensure!(got == want, format!("c04:recording-is-bundling:{}", how), "an accumulator given e and one more error by {} finishes with {:?}; Error::multiple of the two is {:?}", how, got, want);
+                }
+            }
+        }
+    }
     let ce = compile_errors(e.clone().write_errors());
     ensure!(
         ce.len() == leaves.len(),
